@@ -277,16 +277,57 @@ def load(root="/repo", instrument=True):
 
 
 def _post_load(fam):
-    """Remember the pristine contents of module-level mutable state so that every explored path starts from it."""
+    """Remember the pristine contents of module-level and class-level mutable containers of the package so that every
+    explored path starts from them (state a path leaves behind must not leak into the next one)."""
+    from .models import SymDict, SymSet
     w = fam.words
     rs = w.default_reserved_words
     if not getattr(rs, "is_symset", False):
         raise EngineError("default_reserved_words is no longer a set display")
     fam.pristine_reserved = set(rs.conc)
+    snaps = []
+    seen = set()
+
+    def snap(obj):
+        if id(obj) in seen:
+            return
+        if isinstance(obj, SymSet):
+            snaps.append((obj, "symset", (set(obj.conc), list(obj.sym))))
+        elif isinstance(obj, SymDict):
+            snaps.append((obj, "symdict", (dict(obj.conc), [list(e) for e in obj.sym], list(obj.order))))
+        elif isinstance(obj, (set, dict, list)):
+            snaps.append((obj, type(obj).__name__, obj.copy()))
+        else:
+            return
+        seen.add(id(obj))
+    for name, mod in fam.mods.items():
+        if not (name == PKG or name.startswith(PKG + ".")):
+            continue
+        for k, v in list(vars(mod).items()):
+            if k.startswith("__") or k in shims.BUILTINS or k in shims.HELPERS:
+                continue
+            snap(v)
+            if isinstance(v, type) and getattr(v, "__module__", None) == name:
+                for ck, cv in list(vars(v).items()):
+                    if not ck.startswith("__"):
+                        snap(cv)
 
     def reset_reserved():
-        rs.conc.clear()
-        rs.conc.update(fam.pristine_reserved)
-        rs.sym.clear()
-        rs._bylen = None
+        for obj, kind, data in snaps:
+            if kind == "symset":
+                obj.conc.clear()
+                obj.conc.update(data[0])
+                obj.sym[:] = data[1]
+                obj._bylen = None
+            elif kind == "symdict":
+                obj.conc.clear()
+                obj.conc.update(data[0])
+                obj.sym[:] = [list(e) for e in data[1]]
+                obj.order[:] = data[2]
+            elif kind == "list":
+                obj[:] = data
+            else:
+                obj.clear()
+                obj.update(data)
     fam.reset_reserved = reset_reserved
+    fam.global_state = ["%s" % kind for _, kind, _ in snaps]
